@@ -414,7 +414,10 @@ def _decision_table(ctx: Context) -> None:
                 # one row of a table loop the loader spelled out: `code, exc = (K, SomeError)`  (or `x = K`)
                 tg = n.ast.targets[0]
                 names = [tg] if isinstance(tg, ast.Name) else list(tg.elts) if isinstance(tg, (ast.Tuple, ast.List)) else []
-                cells = _row_cells(ctx, cfg.func.module, n.ast.value if len(names) > 1 else ast.Tuple(elts=[n.ast.value], ctx=ast.Load()))
+                if len(names) == 1 and isinstance(n.ast.value, ast.Name) and n.ast.value.id in env:
+                    cells = (env[n.ast.value.id],)  # a copy of a local that already holds a constant / class
+                else:
+                    cells = _row_cells(ctx, cfg.func.module, n.ast.value if len(names) > 1 else ast.Tuple(elts=[n.ast.value], ctx=ast.Load()))
                 if names and all(isinstance(x, ast.Name) for x in names):
                     if cells is not None and len(cells) == len(names):
                         for x, v in zip(names, cells):
